@@ -247,6 +247,13 @@ def structural_probes():
                             lambda w=(h_, w_), p=pad: fss_2d_binary(fld_da > 0.5, fld_da > 0.5, window_size=w, spatial_dims=("y", "x"), zero_padding=p), e))
     for h, e in ((0, "rej"), (1, "ok"), (4, "ok"), (5, "rej"), (1.5, "rej"), (-1, "rej")):
         out.append((f"diebold_mariano h={h} (series length 5)", lambda h=h: diebold_mariano(ts.assign_coords(l=[1], h=("l", [h])), "l", "h", method="HLN"), e))
+    # the lead time h is an array (one per series): a single offending element must be enough to reject
+    ts3 = xr.DataArray([[1.0, 2.0, 0.0, 1.0, 3.0], [0.5, 1.0, 2.0, 0.0, 1.0], [2.0, 0.0, 1.0, 3.0, 1.5]], dims=["l", "t"])
+    for hs, e in (([1, 2, 3], "ok"), ([1.0, 2.0, 3.0], "ok"), ([1, 2.5, 3], "rej"), ([2.5, 1, 2], "rej"), ([1, 2, 3.000001], "rej"), ([1.5, 2.5, 3.5], "rej"),
+                  ([1, 0, 2], "rej"), ([1, 2, -1], "rej"), ([1, 2, 5], "rej"), ([5, 1, 1], "rej"), ([1, 2, 4], "ok"), ([1, float("nan"), 2], "rej")):
+        for meth in ("HLN", "HG"):
+            out.append((f"diebold_mariano h={hs} method={meth} (three series of length 5)",
+                        lambda hs=hs, m=meth: diebold_mariano(ts3.assign_coords(l=[1, 2, 3], h=("l", hs)), "l", "h", method=m), e))
     for ptv, e in ((0.0, "rej"), (1.0, "rej"), (1e-9, "ok"), (1 - 1e-9, "ok")):
         out.append((f"risk_matrix_score probability threshold={ptv}", lambda ptv=ptv: risk_matrix_score(rf, rf, dw.assign_coords(pt=[ptv]), "sev", "pt"), e))
         out.append((f"matrix_weights_to_array probability threshold={ptv}", lambda ptv=ptv: matrix_weights_to_array(np.array([[1.0, 2.0]]), "sev", [0, 1], "pt", [ptv]), e))
